@@ -738,7 +738,9 @@ func emittedBefore(fn *ssa.Function, b *ssa.BasicBlock, isEmit func(ssa.Instruct
 	}
 	if len(b.Instrs) > 0 {
 		for _, e := range emits {
-			if instrDominates(e, b.Instrs[0]) && (innermostLoopHeader(e.Block()) == innermostLoopHeader(b) || innermostLoopHeader(e.Block()) == nil) {
+			// the selection takes effect where the block ends (a value carried round the loop): an emission anywhere
+			// in the block, or in one that dominates it within the same pass, is "before"
+			if (e.Block() == b || instrDominates(e, b.Instrs[0])) && (innermostLoopHeader(e.Block()) == innermostLoopHeader(b) || innermostLoopHeader(e.Block()) == nil) {
 				return true, ""
 			}
 		}
